@@ -209,16 +209,40 @@ def r14i(rep):
             if isinstance(stn, ast.Assign) and stn.value is host and len(stn.targets) == 1 and isinstance(stn.targets[0], ast.Name):
                 name = stn.targets[0].id
             nexts = [c for c in walk_body(ff.node) if isinstance(c, ast.Call) and isinstance(c.func, ast.Name) and c.func.id == 'next' and c.args]
+
+            def consumed(g, depth=0):
+                """what next() draws from, peeled down to the candidates: 'first' / 'reordered' / None (something else)"""
+                if depth > 6:
+                    return None
+                if g is host or (isinstance(g, ast.Name) and name is not None and g.id == name):
+                    return 'first'
+                if isinstance(g, ast.GeneratorExp) and len(g.generators) == 1:
+                    return consumed(g.generators[0].iter, depth + 1)
+                if isinstance(g, ast.Call) and isinstance(g.func, ast.Name) and g.func.id not in C._locals_of(ff) and not g.keywords:
+                    if g.func.id in ('filter', 'map') and len(g.args) == 2:
+                        return consumed(g.args[1], depth + 1)
+                    if g.func.id in ORDER_KEEPING and len(g.args) == 1:
+                        return consumed(g.args[0], depth + 1)
+                    if g.func.id in ORDER_BREAKING and len(g.args) >= 1:
+                        return 'reordered' if consumed(g.args[0], depth + 1) else None
+                if isinstance(g, ast.Subscript) and isinstance(g.slice, ast.Slice):
+                    inner = consumed(g.value, depth + 1)
+                    if inner and g.slice.step is not None and not (isinstance(g.slice.step, ast.Constant) and g.slice.step.value in (1, None)):
+                        return 'reordered'
+                    return inner if g.slice.lower is None and g.slice.upper is None else None
+                return None
             firsts = []
             for c in nexts:
-                g = c.args[0]
-                if g is host:
+                how_c = consumed(c.args[0])
+                if how_c == 'reordered':
+                    rep.fail('R14.i', fkey(ff, 'first match wins'), 'next() draws from %s: the candidates are not tried in the order of the '
+                             'search paths, a later search directory can win over an earlier one' % short(c.args[0], 60), st, c)
+                    firsts = None
+                    break
+                if how_c == 'first':
                     firsts.append(c)
-                elif isinstance(g, ast.GeneratorExp) and name is not None and len(g.generators) == 1 and \
-                        isinstance(g.generators[0].iter, ast.Name) and g.generators[0].iter.id == name:
-                    firsts.append(c)
-                elif isinstance(g, ast.Name) and name is not None and g.id == name:
-                    firsts.append(c)
+            if firsts is None:
+                continue
             loops = [s for s in stmts_of(ff.node) if isinstance(s, ast.For) and name is not None and isinstance(s.iter, ast.Name) and s.iter.id == name]
             if firsts and not loops:
                 rep.ok('R14.i', fkey(ff, 'first match wins'), 'next() takes the first candidate that qualifies', st, firsts[0])
@@ -747,6 +771,14 @@ def r14m(rep):
                           % (cname, kw, short(a) if a is not None else '<nothing>', want,
                              ': conditional requests are never answered 304' if kw in ('cache_timeout', 'cached_modify_time') else
                              ': the configured type does not reach the response'), st, c)
+        if cname == 'StaticApplication' and 'mimetype' in bparams:
+            # the application serves many files: the type is decided per file, not fixed by the endpoint
+            for c in calls:
+                a = C._argn(ep, c, 'mimetype', bparams.index('mimetype'))
+                ok = a is None or C._all_srcs(ep, a, lambda e: isinstance(e, ast.Constant) and e.value is None)
+                rep.check('R14.m', fkey(ep, 'passes mimetype'), ok, 'no fixed mimetype: the type is guessed per file' if ok else
+                          'StaticApplication.get_file_response passes mimetype=%s: every file is served with that type instead of a '
+                          'guessed one' % short(a), st, c)
         for attr in stored:
             sts = _attr_stores(init, attr)
             if not sts:
